@@ -1,7 +1,152 @@
 package main
 
-// Replay families: concrete scenarios driven against the real code through `go test -overlay`.
+// Replay families and bounded stand-ins: Go tests kept under /verif/replay, injected into the real packages with
+// `go test -overlay` (nothing is written into /repo). A replay test FAILS, printing REPLAY-CONFIRMED, when the real code
+// exhibits the violation.
+
+import (
+	"encoding/json"
+	"fmt"
+	"os"
+	"os/exec"
+	"path/filepath"
+	"regexp"
+	"strings"
+	"time"
+)
+
+type replayEntry struct {
+	Name        string            `json:"name"`
+	Kind        string            `json:"kind"` // replay | bounded
+	Properties  []string          `json:"properties"`
+	Obligations string            `json:"obligations"` // regexp on obligation names (replay)
+	Dir         string            `json:"dir"`         // package dir relative to the repo root ("." for the root package)
+	Module      string            `json:"module"`      // module dir ("." root)
+	Files       map[string]string `json:"files"`       // repo-relative target -> /verif-relative source
+	Run         string            `json:"run"`
+	Env         map[string]string `json:"env"`
+	EnvThorough map[string]string `json:"env_thorough"`
+	Bound       string            `json:"bound"`
+	Claims      string            `json:"stands_in_for"`
+}
+
+func loadReplayIndex() []replayEntry {
+	var idx struct {
+		Entries []replayEntry `json:"entries"`
+	}
+	data, err := os.ReadFile(filepath.Join(verifRoot, "replay", "index.json"))
+	if err != nil {
+		// the index always lives in the real /verif
+		data, err = os.ReadFile("/verif/replay/index.json")
+		if err != nil {
+			return nil
+		}
+	}
+	json.Unmarshal(data, &idx)
+	return idx.Entries
+}
+
+type testRun struct {
+	Cmd     string  `json:"cmd"`
+	Failed  bool    `json:"failed"`
+	Output  string  `json:"output"`
+	WallS   float64 `json:"wall_s"`
+	Summary string  `json:"summary"`
+}
+
+func runReplayTest(o *checkOpts, e replayEntry, thorough bool) testRun {
+	scratch, _ := os.MkdirTemp(scratchBase(), "replay.")
+	defer os.RemoveAll(scratch)
+	ov := map[string]map[string]string{"Replace": {}}
+	for target, src := range e.Files {
+		s := src
+		if !filepath.IsAbs(s) {
+			s = filepath.Join("/verif", src)
+		}
+		ov["Replace"][filepath.Join(o.repo, target)] = s
+	}
+	ovp := filepath.Join(scratch, "overlay.json")
+	data, _ := json.Marshal(ov)
+	os.WriteFile(ovp, data, 0o644)
+	moddir := filepath.Join(o.repo, e.Module)
+	pkg := "./" + strings.TrimPrefix(strings.TrimPrefix(e.Dir, e.Module), "/")
+	if e.Dir == e.Module || e.Dir == "." {
+		pkg = "."
+	}
+	args := []string{"test", "-v", "-overlay", ovp, "-vet=off", "-count=1", "-timeout", "600s", "-run", e.Run, pkg}
+	cmd := exec.Command("go", args...)
+	cmd.Dir = moddir
+	cmd.Env = append(os.Environ(), "GOFLAGS=-mod=mod", "GOPROXY=off")
+	var envs []string
+	for k, v := range e.Env {
+		envs = append(envs, k+"="+v)
+	}
+	if thorough {
+		for k, v := range e.EnvThorough {
+			envs = append(envs, k+"="+v)
+		}
+	}
+	cmd.Env = append(cmd.Env, envs...)
+	start := time.Now()
+	out, err := cmd.CombinedOutput()
+	tr := testRun{Cmd: fmt.Sprintf("cd %s && %s go %s", moddir, strings.Join(envs, " "), strings.Join(args, " ")), Failed: err != nil, Output: truncate(string(out), 12000), WallS: time.Since(start).Seconds()}
+	for _, l := range strings.Split(string(out), "\n") {
+		if strings.Contains(l, "REPLAY-CONFIRMED") || strings.Contains(l, "sequences of length") {
+			tr.Summary += strings.TrimSpace(l) + "\n"
+		}
+	}
+	return tr
+}
 
 func runReplayFamily(o *checkOpts, prog *Program, r *UnitResult, ob *Obligation) *replayResult {
+	for _, e := range loadReplayIndex() {
+		if e.Kind != "replay" || e.Obligations == "" {
+			continue
+		}
+		re, err := regexp.Compile(e.Obligations)
+		if err != nil || !re.MatchString(ob.Name) {
+			continue
+		}
+		tr := runReplayTest(o, e, false)
+		confirmed := tr.Failed && strings.Contains(tr.Output, "REPLAY-CONFIRMED")
+		return &replayResult{Family: e.Name, Confirmed: confirmed, Scenario: tr.Summary, Output: tr.Output, Note: tr.Cmd}
+	}
 	return nil
+}
+
+type boundedResult struct {
+	Name    string  `json:"name"`
+	Bound   string  `json:"bound"`
+	Claims  string  `json:"stands_in_for"`
+	Passed  bool    `json:"passed"`
+	WallS   float64 `json:"wall_s"`
+	Summary string  `json:"summary"`
+	Cmd     string  `json:"cmd"`
+}
+
+// runBounded runs the bounded stand-ins registered for the property. Failures are violations with a concrete witness.
+func runBounded(o *checkOpts) ([]boundedResult, []violation) {
+	var out []boundedResult
+	var viols []violation
+	for _, e := range loadReplayIndex() {
+		if e.Kind != "bounded" || !hasTag(e.Properties, o.prop) {
+			continue
+		}
+		tr := runReplayTest(o, e, o.tier == "thorough")
+		br := boundedResult{Name: e.Name, Bound: e.Bound, Claims: e.Claims, Passed: !tr.Failed, WallS: tr.WallS, Summary: tr.Summary, Cmd: tr.Cmd}
+		out = append(out, br)
+		if tr.Failed {
+			viols = append(viols, violation{Obligation: "bounded:" + e.Name, Reason: "bounded stand-in found a concrete counterexample on the real code: " + firstLine(tr.Summary), Status: "witness", Detail: tr.Output, Confirmed: strings.Contains(tr.Output, "REPLAY-CONFIRMED")})
+		}
+	}
+	return out, viols
+}
+
+func firstLine(s string) string {
+	for _, l := range strings.Split(s, "\n") {
+		if strings.Contains(l, "REPLAY-CONFIRMED") {
+			return l
+		}
+	}
+	return strings.SplitN(s, "\n", 2)[0]
 }
